@@ -1,10 +1,12 @@
 (** extraction of the C12 specifications and as-is models *)
 Require Import FastZ.
-From Dashu Require Import Base.Prelude Int.GrlSpec Int.GrlModel Int.GrlLog2Tab Int.GrlKsqrt.
+From Dashu Require Import Base.Prelude Int.GrlSpec Int.GrlModel Int.GrlLog2Tab Int.GrlKsqrt Int.GrlLehmer Int.GrlPrimRoot Int.GrlLog2Wide.
 Extraction "model.ml"
   gcd_spec gcd_ext_cert root_cert iroot_cert root_panic sqrt_rem_spec root_rem_cert
   ilog_panic ilog_cert remove_cert remove_none remove_spec
   log2_lb_dec log2_lb_exact f32_decode f64_decode dyadic log2_bound_check log2_bound_exact log2_bound_k
   nth_root_asis inth_root_asis icbrt_asis sqrt_rem_large_gen ilog_shortcuts remove_asis
   prim_gcd_asis prim_gcd_ext_asis nostd_log2_u16
-  ksqrt ksqrt_fuel sqrt_rem_large_asis.
+  ksqrt ksqrt_fuel sqrt_rem_large_asis
+  lehmer_gcd_asis lehmer_gcd_ext_asis lehmer_guess lehmer_guess_dword
+  prim_sqrt_rem_asis prim_cbrt_rem_asis nostd_log2_wide nostd_wide_bits.
